@@ -36,6 +36,9 @@ pub enum Be {
 pub enum DOp {
     /// Encode `len` bytes of valid text (seeded); `bad` = offset of one invalid byte, if any.
     Encode { be: Be, len: usize, seed: u64, bad: Option<usize>, into: bool },
+    /// encode_into between sub-slices of larger buffers: source starts `src_off` bytes into its
+    /// allocation, destination `dst_off` symbols into its allocation (different alignments mod 32).
+    EncodeSub { be: Be, len: usize, seed: u64, src_off: usize, dst_off: usize },
     Stripe { be: Be },
     StripeInto { be: Be },
     Configure { width: usize, seed: u64 },
@@ -101,6 +104,7 @@ fn dop_name(op: &DOp) -> &'static str {
     match op {
         DOp::Encode { into: false, .. } => "encode",
         DOp::Encode { into: true, .. } => "encode_into",
+        DOp::EncodeSub { .. } => "encode_into(sub-slices)",
         DOp::Stripe { .. } => "stripe",
         DOp::StripeInto { .. } => "stripe_into",
         DOp::Configure { .. } => "configure",
@@ -233,6 +237,22 @@ fn run_direct_typed<A: Alphabet>(sc: &Direct, o: &mut Outcome, u8_ops: bool) {
                     if let Ok(e) = res {
                         st.text_len = len;
                         st.enc = e;
+                    }
+                })
+            }),
+            DOp::EncodeSub { be, len, seed, src_off, dst_off } => sut(|| {
+                let mut pr = Prng::new(seed);
+                let so = src_off % 67;
+                let d_o = dst_off % 67;
+                let text: Vec<u8> = (0..len + so + 3).map(|_| *pr.pick(letters)).collect();
+                let mut dst = vec![A::default_symbol(); len + d_o + 5];
+                cpu::with_host(sc.host, || {
+                    let res = with_be!(be, A, |p| p.encode_into(&text[so..so + len], &mut dst[d_o..d_o + len]), sse2_ok = true);
+                    if res.is_ok() {
+                        dst.truncate(d_o + len);
+                        let enc: Vec<A::Symbol> = dst[d_o..].to_vec();
+                        st.text_len = len;
+                        st.enc = EncodedSequence::<A>::new(enc);
                     }
                 })
             }),
@@ -480,6 +500,14 @@ fn run_direct_c16<A: Alphabet>(sc: &Direct, o: &mut Outcome) {
 }
 
 fn gen_len(r: &mut Prng) -> usize {
+    match r.below(400) {
+        // beyond every "large input" threshold of the kernels (2^18 letters, 1 MiB matrices)
+        0 => *r.pick(&[262_143usize, 262_144, 262_145, 300_000, 1_048_576, 1_048_577, 1_100_000]),
+        _ => gen_len_common(r),
+    }
+}
+
+fn gen_len_common(r: &mut Prng) -> usize {
     match r.below(12) {
         0 => 0,
         1 => r.range(1, 15),
@@ -509,6 +537,10 @@ fn gen_direct(r: &mut Prng, idx: u64) -> Direct {
             0 | 1 => {
                 let len = gen_len(r);
                 DOp::Encode { be, len, seed: r.next_u64(), bad: if r.chance(1, 4) { Some(r.next_u64() as usize) } else { None }, into: r.chance(1, 3) }
+            }
+            2 if r.chance(1, 2) => {
+                let len = gen_len(r);
+                DOp::EncodeSub { be, len, seed: r.next_u64(), src_off: r.next_u64() as usize, dst_off: r.next_u64() as usize }
             }
             2 => DOp::Stripe { be },
             3 | 4 => DOp::StripeInto { be },
@@ -662,7 +694,7 @@ impl Sim for MemSim {
         // coverage: (workload, policy, host if any, size class)
         let key = match sc {
             Sc::Direct(d) => {
-                let longest = d.ops.iter().filter_map(|op| if let DOp::Encode { len, .. } = op { Some(*len) } else { None }).max().unwrap_or(0);
+                let longest = d.ops.iter().filter_map(|op| match op { DOp::Encode { len, .. } | DOp::EncodeSub { len, .. } => Some(*len), _ => None }).max().unwrap_or(0);
                 let mut kinds: Vec<&str> = d.ops.iter().map(dop_name).collect();
                 kinds.sort();
                 kinds.dedup();
@@ -696,6 +728,15 @@ impl Sim for MemSim {
                     }
                 }
                 for (i, op) in d.ops.iter().enumerate() {
+                    if let DOp::EncodeSub { be, len, seed, src_off, dst_off } = *op {
+                        for nl in [len / 2, len.saturating_sub(32), len.saturating_sub(1)] {
+                            if nl < len {
+                                let mut s = d.clone();
+                                s.ops[i] = DOp::EncodeSub { be, len: nl, seed, src_off, dst_off };
+                                out.push(Sc::Direct(s));
+                            }
+                        }
+                    }
                     if let DOp::Encode { be, len, seed, bad, into } = *op {
                         for nl in [len / 2, len.saturating_sub(32), len.saturating_sub(1)] {
                             if nl < len {
